@@ -168,11 +168,15 @@ class NpLib(_CalleeSemantics):
         return np.arange(*a, dtype=dtype or np.int64)
 
     def csr_matmul(self, shape, elem_values, elem_col_indices, row_starts, x):
-        dense = np.zeros(shape, dtype=np.result_type(elem_values.dtype, x.dtype))
-        for r in range(shape[0]):
-            for k in range(int(row_starts[r]), int(row_starts[r + 1])):
-                dense[r, int(elem_col_indices[k])] += elem_values[k]
-        return dense @ x
+        # the documented meaning of a CSR product: only stored entries take part (so 0 * inf never arises from
+        # entries that are not stored)
+        x = np.asarray(x)
+        y = np.zeros((shape[0],) + x.shape[1:], dtype=np.result_type(elem_values.dtype, x.dtype))
+        with np.errstate(all="ignore"):
+            for r in range(shape[0]):
+                for k in range(int(row_starts[r]), int(row_starts[r + 1])):
+                    y[r] = y[r] + elem_values[k] * x[int(elem_col_indices[k])]
+        return y
 
 
 def build_pytato(prog: Prog, data=None):
@@ -396,6 +400,13 @@ CORPUS = [
     _P("loopy_call_scalar_binding", [ph("x", (3, 4))],
        lambda L, x: {"sc": L.callee_scaled(x, 2.5) * 2, "sc2": L.callee_scaled(x + 1, -1.0) - x},
        tags=("loopycall",)),
+    _P("mixed_int_widths", [ph("u", (4,), np.uint32), ph("i", (4,), I32), ph("b", (4,), np.int8), ph("w", (4,), np.uint8)],
+       # results that are negative or do not fit into 32 bits: NumPy promotes uint32 (op) int32 to int64
+       lambda L, u, i, b, w: {"add": u + i, "sub": u - i, "mul": u * i, "sub8": u - b, "mix8": w * b + i, "neg": -i + u},
+       tags=("intarith",),
+       fixed_data={"u": np.array([0, 1, 4000000000, 4294967295], dtype=np.uint32),
+                   "i": np.array([-1, -2000000000, 2000000000, 7], dtype=I32),
+                   "b": np.array([-128, 127, -1, 5], dtype=np.int8), "w": np.array([255, 0, 200, 3], dtype=np.uint8)}),
     _P("neg_abs_pow", [ph("x", (3,)), ph("m", (3,), I64)],
        lambda L, x, m: {"a": -x, "b": abs(x) ** 0.5, "c": (-m) ** 2, "e": x ** 2 - m}),
 ]
